@@ -336,20 +336,20 @@ def run_suite(cx, work, suite, args, seed, tier, replay=None):
             rows.append(dict(seq=w[1], now=int(w[2]), db=int(w[3]), cmd=cmd, kind=w[ridx + 1], payload=unx(w[ridx + 2]),
                              pre=' '.join(w[sidx + 1:ridx]), post=' '.join(w[eidx + 1:]), name=(cmd[0].decode('latin1').lower() if cmd else ''),
                              model=m[0], detail=m[1], f=dict(m[2], shape=w[6] + ':' + w[5]), suite=suite))
-        elif l.startswith('F ') or l.startswith('K ') or l.startswith('Q '):
+        elif l.startswith('F ') or l.startswith('K ') or l.startswith('Q ') or l.startswith('N '):
             # raft suite: one log entry on several state machines / one dispatched command / one batch on a cluster
             w = l.rstrip('\n').split(' ')
             seq = w[1]
             m = verd.get(seq, ('?', 'no verdict', {}))
             cmd, kind, payload, name = [], '', b'', 'batch'
-            if l[0] in 'FK':
+            if l[0] in 'FKN':
                 i = w.index('C')
                 argc = int(w[i + 1])
                 cmd = [unx(x) for x in w[i + 2:i + 2 + argc]]
                 j = w.index('R', i + 2 + argc)
                 kind, payload = w[j + 1], unx(w[j + 2])
                 name = ' '.join(c.decode('latin1').lower() for c in cmd[:2]) if cmd and cmd[0].lower() in (b'acl', b'pubsub', b'command', b'module') else (cmd[0].decode('latin1').lower() if cmd else '')
-                name = ('apply:' if l[0] == 'F' else w[2] + ':') + name
+                name = ('apply:' if l[0] == 'F' else 'transfer:' if l[0] == 'N' else w[2] + ':') + name
             else:
                 nops = int(w[4])
                 k = 5
@@ -391,6 +391,8 @@ def seq_prefix(seqmap, seqid):
     if parts[0] in seqmap and 'rkind' in seqmap[parts[0]]:
         # raft suite: the experiment (kind, clocks, role) with its operations cut after the failing one
         s = seqmap[parts[0]]
+        if len(parts) < 2:
+            return s                              # a snapshot-transfer experiment: one line for the whole sequence
         return dict(s, ops=s['ops'][:int(re.sub(r'\D', '', parts[1]) or 0) + 1])
     if parts[0] in seqmap and 'base' in seqmap[parts[0]]:
         return seqmap[parts[0]]                   # an interleaving experiment: all schedules of the pair are re-run
@@ -654,7 +656,7 @@ def decide(cx, prop, tier, seed, t_start):
     # ---- evidence
     distinct = set()
     for r in rel:
-        if r.get('line') in ('Z', 'A', 'W', 'P', 'G', 'F', 'K', 'Q') or r['pre'] != r['post'] or (r['kind'] == 'ok' and r['payload'] not in (b'$-1\r\n', b'')):
+        if r.get('line') in ('Z', 'A', 'W', 'P', 'G', 'F', 'K', 'Q', 'N') or r['pre'] != r['post'] or (r['kind'] == 'ok' and r['payload'] not in (b'$-1\r\n', b'')):
             distinct.add((r['name'], len(r['cmd']), r['kind'], r['f'].get(col, 'na'), r['f'].get(clscol, '-'), r['f'].get('shape', '')))
     samples = []
     seen = set()
